@@ -443,8 +443,22 @@ def gen_program(rnd):
         ctr[0] += 1
         return f"%{p}{ctr[0]}"
     # first pass: own (non-phi) definitions so that phi operands can refer to them
+    closed = {}
     for i in range(n):
         if kinds[i] == "empty":
+            continue
+        if i and kinds[i] == "halt" and rnd.random() < 0.6:
+            # self-contained halting block (TailMergePass candidates: few templates, so duplicates are frequent)
+            t = rnd.randrange(3)
+            v = fresh()
+            if t == 0:
+                body[i] = [f"{v} = {rnd.choice([5, 6])}", f"mstore 0, {v}"]
+            elif t == 1:
+                w = fresh()
+                body[i] = [f"{v} = calldataload 0", f"{w} = add {v}, 1", f"mstore 32, {w}"]
+            else:
+                body[i] = []
+            closed[i] = rnd.choice(["revert 0, 32", "return 0, 64"])
             continue
         avail = list(entry_vars) if i else []
         k = rnd.randint(0, 3)
@@ -470,7 +484,7 @@ def gen_program(rnd):
         if i == 0:
             for j, v in enumerate(entry_vars):
                 lines.append(f"    {v} = calldataload {32 * j}")
-        elif kinds[i] != "empty" and preds[i] and rnd.random() < 0.75:
+        elif kinds[i] != "empty" and i not in closed and preds[i] and rnd.random() < 0.75:
             for _ in range(rnd.randint(1, 2)):
                 pv = fresh("p")
                 same = rnd.random() < 0.3
@@ -493,6 +507,8 @@ def gen_program(rnd):
             if i == 0:
                 cond = rnd.choice(entry_vars + defs_in[0])
             lines.append(f"    jnz {cond}, @{names[succ[i][0]]}, @{names[succ[i][1]]}")
+        elif i in closed:
+            lines.append("    " + closed[i])
         else:
             r = rnd.random()
             if r < 0.4:
